@@ -659,7 +659,7 @@ class BloomFilterOnDisk(BloomFilter):
         Note:
             Only exported if the filename is not the original filename"""
         self.__update()
-        if file and Path(file) != self._filepath:
+        if file and resolve_path(file) != self._filepath:
             copyfile(self._filepath, str(file))
         # otherwise, nothing to do!
 
